@@ -9,6 +9,7 @@ use crate::kstub::*;
 //@ desc: Cell::is_adjacent(a,b) <=> max(|dx|,|dy|) <= 1 for all cells with |coords| <= 2^29 (no overflow panic inside the bound); symmetric
 //@ encodes: Cell::is_adjacent
 #[kani::proof]
+#[kani::stub(std::io::_print, crate::kstub::noop_print)]
 fn o10_1_adjacent_is_chebyshev() {
     let b = 1 << 29;
     let a = Cell::new(any_in(-b, b), any_in(-b, b));
@@ -25,6 +26,7 @@ fn o10_1_adjacent_is_chebyshev() {
 //@ desc: for cells with |x|,|y| <= 2^20: top_left_most, bottom_right_most, all 25 grid points a..y and absolute_position of any lattice point are finite, so util::ord can never see a NaN coming from cell arithmetic; Point::scale with scale in (0, 1024] stays finite
 //@ encodes: Cell::top_left_most, Cell::bottom_right_most, Cell::a..y, Cell::absolute_position, Point::scale, CellGrid::point
 #[kani::proof]
+#[kani::stub(std::io::_print, crate::kstub::noop_print)]
 fn o1_2_cell_points_finite() {
     let b = 1 << 20;
     let c = Cell::new(any_in(-b, b), any_in(-b, b));
@@ -53,6 +55,7 @@ fn o1_2_cell_points_finite() {
 //@ desc: for cells (k <= 4096, n <= 4096) and lattice points (eighth units, |coords| <= 64 units): absolute_position adds exactly (k, 2n); localize_point(absolute_position(p)) == p; localize_cell is the integer difference
 //@ encodes: Cell::absolute_position, Cell::localize_point, Cell::localize_cell, Cell::top_left_most
 #[kani::proof]
+#[kani::stub(std::io::_print, crate::kstub::noop_print)]
 fn o6_2_cell_abs_local_exact() {
     let c = Cell::new(any_in(0, 4096), any_in(0, 4096));
     let px = any_in(-512, 512) as f32 * 0.125;
